@@ -381,22 +381,20 @@ theorem deliverInterrupt (body : σ → Resume → Burst ℚ σ) (fuel : Nat) (i
 theorem runCb (body : σ → Resume → Burst ℚ σ) (fuel : Nat) (e : EvId) (l : LoopSt ℚ σ) (cb : Cb) :
     R l.s (runCb body fuel e l cb).s := by
   unfold _root_.runCb
-  split
-  · exact K.refl _
-  · simp only
-    cases cb with
-    | resume p => exact K.resume _ _ _ _ _
-    | probe tag => exact K.emit _ _
-    | stop => simp only; split <;> exact K.refl _
-    | intr iv =>
-      simp only
-      split
-      · exact K.deliverInterrupt _ _ _ _ _
-      · exact K.refl _
-    | check c => exact K.condCheck _ _ _
-    | build c => exact K.condBuild _ _
-    | trigPut r => exact K.triggerPut _ _
-    | trigGet r => exact K.triggerGet _ _
+  simp only
+  cases cb with
+  | resume p => exact K.resume _ _ _ _ _
+  | probe tag => exact K.emit _ _
+  | stop => exact K.refl _
+  | intr iv =>
+    simp only
+    split
+    · exact K.deliverInterrupt _ _ _ _ _
+    · exact K.refl _
+  | check c => exact K.condCheck _ _ _
+  | build c => exact K.condBuild _ _
+  | trigPut r => exact K.triggerPut _ _
+  | trigGet r => exact K.triggerGet _ _
 
 /-- **The callback loop of a step stays inside `R`.** -/
 theorem foldCbs (body : σ → Resume → Burst ℚ σ) (fuel : Nat) (e : EvId) (cbs : List Cb) (l : LoopSt ℚ σ) :
